@@ -26,22 +26,22 @@ CHECKS = {
  "C07": dict(
   category="exploration", design_ref="DESIGN.md 4/C07",
   technique="exhaustive subset enumeration (2^n) against a logging scripted HTTP server on the real HttpReader",
-  text="Every subset of the descriptors of three archive layouts (contiguous, with gaps, descriptor order != file order; n=9 quick, 14 thorough) is requested through the real HttpReader::read_chunks exactly as Archive::chunk_stream builds the list, against a loopback server logging Range headers (with and without keep-alive, half of the contiguous layout's subsets with the bodies flushed at or one byte past every chunk boundary); oracle: the logged Range sequence equals the maximal runs of adjacent missing chunks in order with inclusive bounds, and the delivered bytes are exact. C06's CLI HTTP leg and C17's HTTP leg repeat the oracle through clone_cmd and on independently encoded non-contiguous archives. A second leg drives Archive::chunk_stream itself over every subset of the chunks of sources with repeated chunks.",
+  text="Every subset of the descriptors of three archive layouts (contiguous, with gaps, descriptor order != file order; n=9 quick, 14 thorough) is requested through the real HttpReader::read_chunks exactly as Archive::chunk_stream builds the list, against a loopback server logging Range headers (with and without keep-alive, half of the contiguous layout's subsets with the bodies flushed at or one byte past every chunk boundary); oracle: the logged Range sequence equals the maximal runs of adjacent missing chunks in order with inclusive bounds, and the delivered bytes are exact. C06's CLI HTTP leg and C17's HTTP leg repeat the oracle through clone_cmd and on independently encoded non-contiguous archives. A second leg drives Archive::chunk_stream itself over every subset of the chunks of sources with repeated chunks. A fourth layout is served behind a virtual zero prefix so that its third chunk straddles offset 2^32.",
   note="No transfer failures (C08 covers those). Real loopback TCP."),
  "C08": dict(
   category="fault_enumeration", design_ref="DESIGN.md 4/C08",
   technique="deviation-bounded stateless DFS over reader answer scripts (local) and exhaustive fault-sequence enumeration against a scripted HTTP server with a reference model of the retry loop",
-  text="Local: IoReader over a scripted file, all lists of <=2-3 ranges over a small offset/size grid (adjacent, gapped, overlapping, unordered, past EOF), read_at and read_chunks, every answer script with <=2 (quick) / 3 (thorough) deviations from 'full read' (Short(k) for every k, Pending at every poll of read and seek completion), complete tree for single ranges. HTTP: 8 range lists x every single/double split of the first body x every sequence of <=2/3 faults from {connection refused, cut after k bytes for every k incl. 0 and len} x retry budgets 0..3 (+ body ending early, faults on a later run); oracle: a reference model of the resuming retry loop predicts the exact items, the exact Range of every (re)request and whether an error must be returned. Archive level: chunk_stream yields nothing after its first error; the real clone_cmd with --http-retry-count b survives exactly b failed transfers. Large reads around 2^16..2^18 on a 300 kB file.",
+  text="Local: IoReader over a scripted file, all lists of <=2-3 ranges over a small offset/size grid (adjacent, gapped, overlapping, unordered, past EOF), read_at and read_chunks, every answer script with <=2 (quick) / 3 (thorough) deviations from 'full read' (Short(k) for every k, Pending at every poll of read and seek completion), complete tree for single ranges. HTTP: 8 range lists x every single/double split of the first body x every sequence of <=2/3 faults from {connection refused, cut after k bytes for every k incl. 0 and len} x retry budgets 0..3 (+ body ending early, faults on a later run); oracle: a reference model of the resuming retry loop predicts the exact items, the exact Range of every (re)request and whether an error must be returned. Archive level: chunk_stream yields nothing after its first error; the real clone_cmd with --http-retry-count b survives exactly b failed transfers. Large reads around 2^16..2^18 on a 300 kB file. A third of the local range lists and a sixth of the HTTP fault cases are repeated with the file behind a virtual zero prefix ending just below / above 2^32 and at 2^40 (offsets beyond 4 GiB, ranges straddling 2^32).",
   note="A4 (fragmentation scripted on the server side; transport may coalesce). Zero-length ranges are outside C08 (judged under C15)."),
  "C17": dict(
   category="exploration", design_ref="DESIGN.md 4/C17",
   technique="exhaustive enumeration of layout recipes through an independent encoder; real reader locally and over HTTP",
-  text="An independent encoder (no prost, no bitar) produces, for sources of <=3/4 words incl. the empty source and duplicates, every combination of magic {current, legacy} x slack {0,1,7,100} x all permutations of stored chunks x gap patterns x unknown fields in every message x all per-chunk storage forms {compressed iff smaller, raw, compressed although larger} x hash length {4,5,64} x packed/unpacked rebuild order, per chunker/compression universe; each archive is opened by the real reader (all accessors == encoder inputs), printed by the real info code and cloned locally, with a seed (recorded chunker parameters in use), over HTTP (requests == maximal runs), and every 16th through the real clone_cmd --verify-output (file and HTTP). Quick thins the product 1-in-5 deterministically keeping every value of every dimension; thorough takes the full product. Every 16th archive is also cloned by clone_cmd in place over a prior output holding the chunks in reverse order.",
+  text="An independent encoder (no prost, no bitar) produces, for sources of <=3/4 words incl. the empty source and duplicates, every combination of magic {current, legacy} x slack {0,1,7,100} x all permutations of stored chunks x gap patterns x unknown fields in every message x all per-chunk storage forms {compressed iff smaller, raw, compressed although larger} x hash length {4,5,64} x packed/unpacked rebuild order, per chunker/compression universe; each archive is opened by the real reader (all accessors == encoder inputs), printed by the real info code and cloned locally, with a seed (recorded chunker parameters in use), over HTTP (requests == maximal runs), and every 16th through the real clone_cmd --verify-output (file and HTTP). Quick thins the product 1-in-5 deterministically keeping every value of every dimension; thorough takes the full product. Every 16th archive is also cloned by clone_cmd in place over a prior output holding the chunks in reverse order. Every eighth archive is re-encoded with its chunk data offset moved beyond 4 GiB (first stored chunk straddling 2^32 or starting at 2^33+1; the hole is virtual) and cloned locally and over HTTP.",
   note="Trusted: the independent encoder as the definition of 'conforming' (cross-validated against bitar bit-for-bit on bitar-written archives)."),
  "C01": dict(
   category="model_checking", design_ref="DESIGN.md 4/C01",
   technique="deviation-bounded stateless DFS over blocking-pool schedules of the real compress_cmd/create_archive/clone_cmd (gate in a vendored tokio) + exhaustive small-alphabet input x configuration sweep",
-  text="Schedules: every order in which blocking-pool tasks (hashing, compression, tokio::fs::File operations) complete relative to polls of the main future, on the real CLI compress, library writer and CLI clone: bound 2 on seven subjects plus the COMPLETE tree of a 3-chunk CLI compress (quick); bound 3 plus complete trees of nine subjects (CLI compress 2/3 chunks at buffers 2 = 57 540 schedules, 4 chunks with a duplicate, brotli; library writer; CLI clone plain / seeded / in place) in the thorough tier; each schedule is one execution of the real code judged by the round trip and the recorded size/checksum. Inputs x configurations: all strings over a 3-letter alphabet up to length 5/7 (3/5 under compression) plus a boundary family around window/min/max, over a pairwise-style grid of chunkers, hash lengths, compressions and buffer counts, through the library writer and the real CLI compress+clone on files; seven sources beyond the 1 MiB refill buffer incl. chunks beyond 2 MiB; real-binary grid (file/stdin input, local/HTTP clone). Break-even chunks (compressed size == source size) are searched and round-tripped; the CLI round trip clones a second time over an existing, longer file with --force-create. A further leg runs the real binary over the full product of output-opening options x state of the output path x transport x archive parameterisation (lib/cligrid.py: 1 008 clone cells, 360 compress cells, each in a snapshotted private directory) and reports this property's classes of departures from a model of the command line.",
+  text="Schedules: every order in which blocking-pool tasks (hashing, compression, tokio::fs::File operations) complete relative to polls of the main future, on the real CLI compress, library writer and CLI clone: bound 2 on seven subjects plus the COMPLETE tree of a 3-chunk CLI compress (quick); bound 3 plus complete trees of nine subjects (CLI compress 2/3 chunks at buffers 2 = 57 540 schedules, 4 chunks with a duplicate, brotli; library writer; CLI clone plain / seeded / in place) in the thorough tier; each schedule is one execution of the real code judged by the round trip and the recorded size/checksum. Inputs x configurations: all strings over a 3-letter alphabet up to length 5/7 (3/5 under compression) plus a boundary family around window/min/max, over a pairwise-style grid of chunkers, hash lengths, compressions and buffer counts, through the library writer and the real CLI compress+clone on files; seven sources beyond the 1 MiB refill buffer incl. chunks beyond 2 MiB; real-binary grid (file/stdin input, local/HTTP clone). Break-even chunks (compressed size == source size) are searched and round-tripped; the CLI round trip clones a second time over an existing, longer file with --force-create. A further leg runs the real binary over the full product of output-opening options x state of the output path x transport x archive parameterisation (lib/cligrid.py: 1 008 clone cells, 360 compress cells, each in a snapshotted private directory) and reports this property's classes of departures from a model of the command line. Thorough: a sparse source of 4 GiB + 3 MiB + 12345 bytes with distinct chunks below / at / above source offset 2^32 is compressed, cloned and re-cloned in place by the real binary.",
   note="A3: schedule granularity = blocking task runs to completion / main future polled once (sound: tasks share nothing but join handles, <=1 op in flight per file handle); reduction R1 validated against the unreduced search; real-binary leg binds the in-process legs to the shipped artefact. HTTP read path is covered by C07/C08/C17."),
  "C11": dict(
   category="model_checking", design_ref="DESIGN.md 4/C11",
